@@ -656,6 +656,32 @@ fn node_case(cx: &mut Cx) {
             }
         }
     }
+    // ---- part 3: the same inconsistency, delivered the other way round: payments overtake each other, so the later,
+    // lesser quote of a peer can reach the driver BEFORE the earlier one that reports more; the pair is inconsistent
+    // whichever of the two arrives first
+    {
+        let kp2 = keypair(&mut cx.rng);
+        let peer2 = PeerId::from(kp2.public());
+        let (early_age, late_age) = (cx.rng.gen_range(1500..3000u64), cx.rng.gen_range(300..1400u64));
+        let (early_live, early_pay) = (start_age - early_age, cx.rng.gen_range(10..60usize));
+        let by_uptime = cx.rng.gen_bool(0.5);
+        let (late_live, late_pay, label) = if by_uptime { (early_live - cx.rng.gen_range(1..1000), early_pay, "less-uptime") } else { (start_age - late_age, early_pay - cx.rng.gen_range(1..10), "fewer-payments") };
+        let flagged2 = |sim: &Sim| sim.nodes[0].drv.verif_node_issues().iter().any(|(p, names, _)| *p == peer2 && names.iter().any(|n| n == "BadQuoting"));
+        let deliver2 = |sim: &mut Sim, q: PaymentQuote| {
+            let _g = sim.rt.enter();
+            let _ = sim.nodes[0].drv.verif_handle_local_cmd(LocalSwarmCmd::QuoteVerification { quotes: vec![(peer2, q)] });
+        };
+        deliver2(&mut sim, signed_quote(&kp2, content, now - Duration::from_secs(late_age), metrics(late_live, late_pay), rewards));
+        let early_flag = flagged2(&sim);
+        deliver2(&mut sim, signed_quote(&kp2, content, now - Duration::from_secs(early_age), metrics(early_live, early_pay), rewards));
+        cx.eval();
+        cx.count("node:inconsistent-pairs-delivered-later-quote-first");
+        if early_flag {
+            cx.violation("consistent-quote-flagged", "the first quote ever seen from a peer was flagged".to_string(), json!({}));
+        } else if !flagged2(&sim) {
+            cx.violation(format!("inconsistent-later-quote-not-flagged:delivered-before-the-earlier-one:{label}"), format!("quote A ({late_age} s old: live {late_live}, payments {late_pay}) was delivered first, then quote B issued before it ({early_age} s old: live {early_live}, payments {early_pay}); A is later and reports {label} than B, yet the peer was not flagged"), json!({"late": [late_age, late_live, late_pay], "early": [early_age, early_live, early_pay]}));
+        }
+    }
     cx.nontrivial(&("history", h64(&serde_json::to_string(&hist).unwrap_or_default())));
     drop(sim);
     let _ = std::fs::remove_dir_all(&root);
